@@ -101,4 +101,36 @@ example : Gen.shouldWait 2 7 2 7 = true ∧ Gen.shouldWait 2 5 2 8 = false ∧ G
     would not wait although its committed entry IS the unstable one -/
 example : ¬ ((7 : Int) < 7) := by decide
 
+/-! ### the checkpoint of index i holds exactly the entries up to i (pinned: GetSnapshot waits for the engines' checkpoint call)
+
+The apply loop takes the snapshot of index `i` and, while the engine writes the checkpoint, would go on applying `d` further
+entries unless it waits; the checkpoint then holds `i + d` entries although it is named `i`, and a restart restores it and replays the
+log from `i + 1`.  With the wait (`Gen.snapshotWaitsForCheckpoint`, regenerated) `d = 0`. State machine: any fold over the log. -/
+
+def runLog {S C : Type} (ap : S → C → S) (s0 : S) (log : List C) : S := log.foldl ap s0
+
+/-- what the node serves after "restore the checkpoint named i, replay the log from i+1", when the checkpoint was written
+    while `d` further entries were applied -/
+def restoreAndReplay {S C : Type} (ap : S → C → S) (s0 : S) (log : List C) (i d : Nat) : S :=
+  runLog ap (runLog ap s0 (log.take (i + d))) (log.drop i)
+
+/-- the number of entries applied while the checkpoint is written: none when the loop waits -/
+def appliedMeanwhile (waits : Bool) (d : Nat) : Nat := if waits then 0 else d
+
+/-- **restart from a snapshot = the whole log, once** — for every state machine, log, snapshot index and scheduling of the
+    checkpoint writer, given the pinned wait -/
+theorem C06_snapshot_restart_applies_once {S C : Type} (ap : S → C → S) (s0 : S) (log : List C) (i d : Nat) :
+    restoreAndReplay ap s0 log i (appliedMeanwhile Gen.snapshotWaitsForCheckpoint d) = runLog ap s0 log := by
+  unfold restoreAndReplay appliedMeanwhile Gen.snapshotWaitsForCheckpoint runLog
+  simp only [if_true, Nat.add_zero]
+  rw [← List.foldl_append, List.take_append_drop]
+
+/-- without the wait: one counter increment applied while the checkpoint was written is applied twice after the restart
+    (the shape of the repaired defect 2bce29a and of the seeded changes C04-m3 / C04-m5) -/
+theorem C06_snapshot_without_wait_witness :
+    restoreAndReplay (fun (a b : Nat) => a + b) 0 [1, 1, 1, 1] 2 (appliedMeanwhile false 1) = 5 ∧
+    runLog (fun (a b : Nat) => a + b) 0 [1, 1, 1, 1] = 4 := by decide
+
+example : restoreAndReplay (fun (a b : Nat) => a + b) 0 [1, 1, 1, 1] 2 (appliedMeanwhile Gen.snapshotWaitsForCheckpoint 1) = 4 := by decide
+
 end Z.Props.C06
